@@ -220,6 +220,8 @@ def _mk_case(rng, body, roles, form_df, colmap, use_cache, entry, executor, lens
         run = {"set": sets, "how": rng.choice(["call", "call", "setrun", "assign"])}
         if executor:
             run["sched"] = (scheds[r] if scheds else [rng.randrange(0, 6) for _ in range(8)])
+            if not scheds and rng.random() < 0.15:
+                run["exec"] = False  # this run with the executor taken off the body nodes
         runs.append(run)
     return {"kind": "for", "body": body, "iter": iter_on, "zip": zip_on, "df": form_df, "colmap": colmap,
             "use_cache": use_cache, "entry": entry, "executor": executor, "init": init, "runs": runs}
@@ -494,6 +496,8 @@ def _run_for(case):
             obs.append("ch " + " ".join(spec["inputs"]))
         for run in case["runs"]:
             idle.sched = list(run.get("sched", []))
+            if f is not None and ctl is not None:
+                f.body_node_executor = ctl if run.get("exec", True) else None
             calls0 = len(nodes_c16.CALLS)
             sets = {k: (list(v) if isinstance(v, list) else v) for k, v in run["set"].items()}
             res, ret, err_text = "ok", None, ""
@@ -528,6 +532,8 @@ def _run_for(case):
             if ret is not None:
                 line, struct = _outs_view(case["df"], (lambda lab: ret["df"]) if case["df"] else
                                           (lambda _l: (list(ret.keys()), dict(ret))))
+            elif f is None:
+                line, struct = "df ND", {"form": "df", "table": None}
             else:
                 line, struct = _outs_view(case["df"], (lambda lab: f.outputs.df.value) if case["df"] else
                                           (lambda _l: (list(f.outputs.labels), f.outputs.to_value_dict())))
